@@ -374,6 +374,12 @@ def report(prop, tier, seed, t0, contracts, results, lemma_recs, validations, sp
     if not samples:
         samples = [{"obligation": f"{o['contract']}::{o['case']}::{o['name']}", "verdict": o["verdict"]} for o in obligations[:3]]
     solver_time = round(sum(o.get("time", 0) for o in obligations), 3)
+    self_test = []
+    if tier == "thorough" and not os.environ.get("PYVC_NO_SELFTEST"):
+        self_test = run_self_test(prop)
+        for st in self_test:
+            if st["result"] == "not-detected":
+                lines.append(f"WARNING property={prop} self-test: the recorded change {st['seed']} is no longer detected (exit {st['exit']})")
     ev = {
         "property_id": prop, "tier": tier, "seed": seed, "level": "proof",
         "coverage": {
@@ -388,6 +394,7 @@ def report(prop, tier, seed, t0, contracts, results, lemma_recs, validations, sp
             "inlined_callees": inlined, "assumed_external_contracts": assumed,
             "assumed_contract_validation": validations,
             "bounded_standins": spec.get("bounded", []) + standin_results,
+            "self_test_on_recorded_changes": self_test,
             "not_decided": spec.get("not_decided", []),
             "known_finding_obligations": [f"{o['contract']}::{o['case']}::{o['name']}" for _, o in known_hits],
             "failed": [f"{o['contract']}::{o['case']}::{o['name']}" for o, _, _ in violations],
@@ -409,6 +416,47 @@ def report(prop, tier, seed, t0, contracts, results, lemma_recs, validations, sp
           f"discharged={ev['coverage']['discharged']} known-finding={n_known} failed={len(violations)} "
           f"undecided={len(unknown)} checker-errors={len(checker_errors)} wall={ev['wall_s']}s exit={exit_code}")
     return exit_code
+
+
+def run_self_test(prop):
+    """thorough tier: every change recorded under /verif/seeded for this property as detected is applied to a scratch copy of
+    the tree under verification and the quick check must report a violation there. Informational: it never changes the verdict
+    on the tree itself (a recorded change may not apply to a tree that has changed)."""
+    import glob
+    import shutil
+    import subprocess
+    out = []
+    repo = os.environ.get("PYVC_REPO", "/repo")
+    for meta_path in sorted(glob.glob(os.path.join(VERIF, "seeded", prop + "-*", "meta.json"))):
+        try:
+            meta = json.load(open(meta_path))
+        except Exception:
+            continue
+        if not meta.get("check_result", {}).get("detected"):
+            continue
+        d = os.path.dirname(meta_path)
+        scratch = f"/var/tmp/pyvc.self.{os.getpid()}.{os.path.basename(d)}"
+        rec = {"seed": os.path.basename(d)}
+        try:
+            shutil.rmtree(scratch, ignore_errors=True)
+            os.makedirs(scratch)
+            subprocess.run(["rsync", "-a", "--exclude", ".git", "--exclude", "__pycache__", os.path.join(repo, "openfisca_core"), scratch + "/"], check=True)
+            p = subprocess.run(["patch", "-p1", "-s", "-d", scratch, "-i", os.path.join(d, "patch.diff")], capture_output=True, text=True)
+            if p.returncode != 0:
+                rec.update({"result": "does-not-apply", "detail": (p.stdout + p.stderr)[-200:]})
+            else:
+                env = dict(os.environ, PYVC_REPO=scratch, PYVC_EVIDENCE_DIR=scratch + "/ev", PYVC_REPLAY_DIR=scratch + "/rp", PYVC_NO_SELFTEST="1",
+                           VERIF_TIER="quick")
+                r = subprocess.run([sys.executable, "-m", "pyvc.driver", prop, "--tier", "quick"], cwd=VERIF, env=env, capture_output=True, text=True,
+                                   timeout=1800)
+                rec.update({"exit": r.returncode, "result": "detected" if r.returncode == 1 else "not-detected",
+                            "violation_lines": len([l for l in r.stdout.splitlines() if l.startswith("VIOLATION")])})
+        except Exception as e:
+            rec.update({"result": "error", "detail": f"{type(e).__name__}: {e}"[:200]})
+        finally:
+            shutil.rmtree(scratch, ignore_errors=True)
+        out.append(rec)
+    return out
 
 
 GLOBAL_ASSUMPTIONS = [
